@@ -169,9 +169,9 @@ Proof.
       apply orb_prop in C. destruct C as [C|C]; [pose proof (lvl_plain_power a C)|pose proof (lvl_plain_mul a C)]; lia.
   - (* Mul *)
     assert (Generic :
-      (negb (is_mul b) || fused b = true) ->
+      (negb (bare_mul a b) || fused b = true) ->
       wf (SBin TMultiply (if is_power a || is_mul a then echo_tree Plain a else echo_tree Liberal a)
-                         (if is_power b || is_mul b then echo_tree Plain b else echo_tree Liberal b)) = true).
+                         (if is_power b || bare_mul a b then echo_tree Plain b else echo_tree Liberal b)) = true).
     { intros Hb. cbn [wf binlevel]. rewrite !wf_choice by assumption. cbn [andb].
       rewrite !leb_intro; [reflexivity| |].
       - apply lvl_choice; [|lia]. intros C. apply orb_prop in C. destruct C as [C|C].
@@ -354,7 +354,7 @@ Proof.
     + (* Mul *)
       assert (Generic :
         desugar (SBin TMultiply (if is_power e1 || is_mul e1 then echo_tree Plain e1 else echo_tree Liberal e1)
-                                (if is_power e2 || is_mul e2 then echo_tree Plain e2 else echo_tree Liberal e2))
+                                (if is_power e2 || bare_mul e1 e2 then echo_tree Plain e2 else echo_tree Liberal e2))
         = EBin Mul (erase e1) (erase e2)).
       { cbn [desugar binop_of]. rewrite (desugar_choice _ _ _ _ _ Da), (desugar_choice _ _ _ _ _ Db). reflexivity. }
       destruct e1; try exact Generic. destruct e2; try exact Generic;
